@@ -377,16 +377,19 @@ class Concrete:
         maxuid = uids[-1] if uids else 100
         fillers = []
         script = []
+        # an earlier session that had INBOX selected (and left it): what is
+        # there now is no longer \\Recent for anybody
+        prime = [('p', b'CREATE Other'), ('p', b'SELECT INBOX'), ('p', b'SELECT Other')]
         for u in range(101, maxuid + 1):
             if u == u_old + 1 and nold:
-                script += [('p', b'SELECT INBOX'), ('p', b'LOGOUT')]
+                script += prime
             if u in self.appends:
                 script.append(('q', self.appends[u]))
             else:
                 fillers.append(u)
                 script.append(('q', self.filler_cmd()))
         if nold and u_old == maxuid:
-            script += [('p', b'SELECT INBOX'), ('p', b'LOGOUT')]
+            script += prime
         script.append(('a', b'SELECT INBOX'))
         if fillers:
             script.append(('a', b'UID EXPUNGE ' + ','.join(map(str, fillers)).encode()))
@@ -489,7 +492,8 @@ class Server:
     """One World; sessions are connected and logged in on first use."""
 
     def __init__(self):
-        self.w = World('dict', demo=False, users={'user1': 'pass1'})
+        self.w = World('dict', demo=False, users={'user1': 'pass1'},
+                       config_kw={'bad_command_limit': None})
         self.log: list = []
 
     def cmd(self, sess: str, line: bytes) -> bytes:
@@ -499,8 +503,32 @@ class Server:
             out = self.w.login(sess)
             if b' OK ' not in out:
                 raise PreconditionFailed(f'login failed: {out!r}')
-        out = self.w.cmd(sess, line)
+        out = self.send(sess, line)
         self.log.append((sess, line, out))
+        return out
+
+    _SYNC = re.compile(rb'\{\d+\}\r\n')
+
+    def send(self, sess: str, line: bytes) -> bytes:
+        """Like World.cmd, but a synchronising literal is only sent after the
+        server asked for it (a client must not send it after a BAD)."""
+        w = self.w
+        c = w.conns[sess]
+        c.tagno += 1
+        data = b'%s%d %s\r\n' % (sess.encode(), c.tagno, line)
+        pieces, pos = [], 0
+        for m in self._SYNC.finditer(data):
+            pieces.append(data[pos:m.end()])
+            pos = m.end()
+        pieces.append(data[pos:])
+        out = b''
+        for i, piece in enumerate(pieces):
+            c.feed(piece)
+            w.run_to_completion(sess)
+            chunk = c.take()
+            out += chunk
+            if i < len(pieces) - 1 and not chunk.startswith(b'+'):
+                break
         return out
 
     def close(self):
